@@ -142,15 +142,31 @@ struct ColSpec { size_t t; ull size, align, code; std::string name; bool mut = f
 	case 12: F<12>(__VA_ARGS__); break; case 13: F<13>(__VA_ARGS__); break; case 14: F<14>(__VA_ARGS__); break; case 15: F<15>(__VA_ARGS__); break; \
 	default: throw HarnessError{"type index"}; }
 
-template<size_t L, bool keep, typename MM = MemManagerDefault, bool failing = false>
+template<size_t L, bool keep, typename MM = MemManagerDefault, bool failing = false, typename TStruct = DataStructDefault<>>
 struct Runner
 {
-	typedef DataStructDefault<> Struct;
+	typedef TStruct Struct;
 	typedef DataColumnTraits<Struct, L> ColumnTraits;
 	typedef DataColumnList<ColumnTraits, MM, DataItemTraits<MM>, DataSettings<keep>> CL;
 	typedef typename CL::ColumnInfo ColumnInfo;
-	template<typename Item> using Col = DataColumn<Item, Struct, uint64_t>;
+	typedef typename ColumnInfo::Code Code;
+	template<typename Item> using Col = DataColumn<Item, Struct>;
 	typedef DataItemTraits<MM> ItemTraits;
+
+	// the INTENDED classes are really instantiated (coverage audit)
+	static_assert(CL::logVertexCount == L && CL::vertexCount == (size_t(1) << L) && CL::maxColumnCount == (size_t(1) << (L - 1)), "vertex count");
+	static_assert(std::tuple_size<decltype(CL::mAddends)>::value == (size_t(1) << L), "addends table");
+	static_assert(CL::Settings::keepRowNumber == keep, "row number setting");
+	static_assert(std::is_same<typename CL::MemManager, MM>::value && std::is_same<typename CL::ColumnCode, Code>::value, "manager / code type");
+	static_assert(std::is_same<Code, typename std::conditional<std::is_empty<Struct>::value, uint64_t, DataColumnCodeOffset>::type>::value,
+		"string-hash codes for the empty struct tag, member-offset codes for a struct with members");
+	static_assert(sizeof(Code) == 8, "GetVertices folds the upper 32 bits");
+	static_assert(std::is_same<typename CL::template Column<uint32_t>, Col<uint32_t>>::value, "column type");
+	static_assert(!std::is_trivially_copyable<Cnt<16, 8>>::value && !std::is_nothrow_copy_constructible<Cnt<16, 8>>::value
+		&& !std::is_nothrow_default_constructible<Cnt<16, 8>>::value, "instrumented items may throw");
+	static_assert(std::is_trivially_copyable<B3>::value && std::is_trivially_copyable<A16>::value && alignof(A16) == 16 && alignof(long double) == 16, "POD items");
+
+	CL** ctorTarget = nullptr;   // non-null: the next addGroup constructs a list with DataColumnList(column, columns...)
 
 	std::string problem;     // harness-level problem (bad type table, unsupported group, ...)
 
@@ -159,25 +175,34 @@ struct Runner
 		typedef typename TypeOf<t>::T T;
 		if (sizeof(T) != c.size || ItemTraits::template GetAlignment<T>() != c.align || alignof(T) != c.align)
 			problem = "BADTYPE " + std::to_string(t);
-		if (!c.name.empty())
+		if constexpr (std::is_same<Code, uint64_t>::value)
 		{
-			Col<T> col(c.name.c_str());
-			if (col.GetCode() != c.code) problem = "BADHASH " + c.name;
-			return col;
+			if (!c.name.empty())
+			{
+				Col<T> col(c.name.c_str());
+				if (col.GetCode() != c.code) problem = "BADHASH " + c.name;
+				return col;
+			}
 		}
-		return Col<T>(uint64_t(c.code), "c");
+		return Col<T>(static_cast<Code>(c.code), "c");
 	}
-	template<size_t t> void add1(CL& cl, const ColSpec& c) { if (c.mut) cl.Add(mk<t>(c).Mutable()); else cl.Add(mk<t>(c)); }
+	template<size_t t> void add1(CL& cl, const ColSpec& c)
+	{
+		if (ctorTarget != nullptr) *ctorTarget = new CL(mk<t>(c));
+		else if (c.mut) cl.Add(mk<t>(c).Mutable()); else cl.Add(mk<t>(c));
+	}
 	template<size_t t1, size_t t2> void add2(CL& cl, const ColSpec* c)
 	{
-		if (c[0].mut && c[1].mut) cl.Add(mk<t1>(c[0]).Mutable(), mk<t2>(c[1]).Mutable());
+		if (ctorTarget != nullptr) *ctorTarget = new CL(mk<t1>(c[0]), mk<t2>(c[1]));
+		else if (c[0].mut && c[1].mut) cl.Add(mk<t1>(c[0]).Mutable(), mk<t2>(c[1]).Mutable());
 		else if (c[0].mut) cl.Add(mk<t1>(c[0]).Mutable(), mk<t2>(c[1]));
 		else if (!c[1].mut) cl.Add(mk<t1>(c[0]), mk<t2>(c[1]));
 		else throw HarnessError{"unsupported mutable combination"};
 	}
 	template<size_t t1, size_t t2, size_t t3> void add3(CL& cl, const ColSpec* c)
 	{
-		if (!c[0].mut && c[1].mut && !c[2].mut) cl.Add(mk<t1>(c[0]), mk<t2>(c[1]).Mutable(), mk<t3>(c[2]));
+		if (ctorTarget != nullptr) *ctorTarget = new CL(mk<t1>(c[0]), mk<t2>(c[1]), mk<t3>(c[2]));
+		else if (!c[0].mut && c[1].mut && !c[2].mut) cl.Add(mk<t1>(c[0]), mk<t2>(c[1]).Mutable(), mk<t3>(c[2]));
 		else if (!c[0].mut && !c[1].mut && !c[2].mut) cl.Add(mk<t1>(c[0]), mk<t2>(c[1]), mk<t3>(c[2]));
 		else throw HarnessError{"unsupported mutable combination"};
 	}
@@ -207,7 +232,7 @@ struct Runner
 		throw HarnessError{"unsupported group"};
 	}
 
-	static size_t lookup(const CL& cl, ull code) { return cl.template GetOffset<true, uint8_t>(Col<uint8_t>(uint64_t(code), "q")); }
+	static size_t lookup(const CL& cl, ull code) { return cl.template GetOffset<true, uint8_t>(Col<uint8_t>(static_cast<Code>(code), "q")); }
 
 	void dump(const CL& cl, char status, const std::vector<ull>& added, const std::vector<ull>& universe, std::string& out, bool withMutCount = true)
 	{
@@ -221,7 +246,8 @@ struct Runner
 		for (ull code : universe)
 		{
 			size_t off = size_t(-1);
-			bool c = cl.Contains(ColumnInfo(Col<uint8_t>(uint64_t(code), "q")), &off);
+			bool c = cl.Contains(ColumnInfo(Col<uint8_t>(static_cast<Code>(code), "q")), &off);
+			if (c != cl.Contains(ColumnInfo(Col<uint8_t>(static_cast<Code>(code), "q")))) out += " CONTAINS-WITHOUT-OFFSET-DIFFERS";
 			if (c) { snprintf(buf, sizeof buf, " %llu", ull(off)); out += buf; } else out += " -";
 		}
 		out += " |";
@@ -242,7 +268,7 @@ struct Runner
 		RawBuf(size_t sz, size_t al) : size(sz) { size_t a = std::max<size_t>(al, 16); p = std::aligned_alloc(a, ((sz + a - 1) / a + 1) * a); std::memset(p, 0xCD, sz); }
 		~RawBuf() { std::free(p); }
 	};
-	std::string rawErr, evTrace, afErr; size_t afCount = 0;
+	std::string rawErr, evTrace, afErr; size_t afCount = 0, injected = 0; bool ctorFirst = false;
 	void fail(const std::string& s) { if (rawErr.empty()) rawErr = s; }
 
 	const CL* curList = nullptr;
@@ -350,9 +376,26 @@ struct Runner
 			try { A.CreateRaw(mm, a.p); } catch (const std::domain_error&) { thrown = true; }
 			evTrace += " | " + std::to_string(k) + ":" + trace(a.p);
 			if (!thrown) fail("CreateRaw: injected failure not propagated");
+			++injected;
 			if (!R().live.empty()) fail("CreateRaw failure: instrumented items left alive");
 			for (auto& kv : R().nctor) if (kv.second != 1 || R().ndtor[kv.first] != 1) fail("CreateRaw failure: construct/destroy counts differ");
 			for (auto& e : R().errors) fail(e);
+		}
+		for (size_t k = 0; k < cntA; ++k)
+		{	// ImportRaw into the same list with the k-th copy throwing
+			R().reset();
+			RawBuf a(A.GetTotalSize(), A.GetAlignment()), a2(A.GetTotalSize(), A.GetAlignment());
+			A.CreateRaw(mm, a.p);
+			size_t before = R().live.size();
+			R().failAt = long(k);
+			bool thrown = false;
+			try { A.ImportRaw(mm, A, a.p, a2.p); } catch (const std::domain_error&) { thrown = true; }
+			if (!thrown) fail("ImportRaw(same list): injected failure not propagated");
+			if (R().live.size() != before) fail("ImportRaw(same list) failure: instrumented items left alive");
+			A.DestroyRaw(&mm, a.p);
+			if (!R().live.empty()) fail("ImportRaw(same list) failure: items alive after destroying the source");
+			for (auto& e : R().errors) fail(e);
+			++injected;
 		}
 		for (size_t k = 0; k < cntB; ++k)
 		{
@@ -364,6 +407,7 @@ struct Runner
 			bool thrown = false;
 			try { B.ImportRaw(mm, A, a.p, b.p); } catch (const std::domain_error&) { thrown = true; }
 			if (!thrown) fail("ImportRaw: injected failure not propagated");
+			++injected;
 			if (R().live.size() != before) fail("ImportRaw failure: instrumented items left alive");
 			A.DestroyRaw(&mm, a.p);
 			if (!R().live.empty()) fail("ImportRaw failure: items alive after destroying the source");
@@ -375,12 +419,22 @@ struct Runner
 	std::string run(const std::vector<std::vector<ColSpec>>& ops, const std::vector<ColSpec>& extras, const std::vector<ull>& universe)
 	{
 		std::string out;
-		CL cl;
+		std::unique_ptr<CL> clp(new CL);
 		std::vector<ull> added; std::vector<ColSpec> addedCols;
 		for (size_t i = 0; i < ops.size(); ++i)
 		{
+			CL& cl = *clp;
 			char status = 'A';
-			if constexpr (failing)
+			if (i == 0 && ctorFirst && !failing)
+			{	// DataColumnList(column, columns...): the list is born with its first group (or not at all)
+				CL* born = nullptr; ctorTarget = &born;
+				try { addGroup(cl, ops[i]); }
+				catch (const std::logic_error&) { status = 'T'; }
+				catch (const std::runtime_error&) { status = 'R'; }
+				ctorTarget = nullptr;
+				if (born != nullptr) clp.reset(born);
+			}
+			else if constexpr (failing)
 			{	// enumerate every allocation failure point of this Add: each must leave all observables as they were
 				for (long k = 0; ; ++k)
 				{
@@ -410,9 +464,17 @@ struct Runner
 			}
 			if (status == 'A') for (auto& c : ops[i]) { added.push_back(c.code); addedCols.push_back(c); }
 			if (i > 0) out += " ; ";
-			dump(cl, status, added, universe, out);
+			dump(*clp, status, added, universe, out);
 		}
+		CL& cl = *clp;
 		rawTest(cl, addedCols, extras);
+		{	// a copy that grows on its own leaves the original alone
+			std::string o1, o2; dump(cl, 'C', added, universe, o1);
+			CL cl4(cl);
+			for (const ColSpec& x : extras) { ColSpec c1 = x; c1.name.clear(); try { addGroup(cl4, { c1 }); } catch (const std::exception&) {} }
+			dump(cl, 'C', added, universe, o2);
+			if (o1 != o2) fail("adding to a copy changed the original list");
+		}
 		// a copy of the list answers the same
 		{
 			CL cl2(cl); std::string o1, o2, o3;
@@ -424,25 +486,28 @@ struct Runner
 		out += " ; raw " + (rawErr.empty() ? std::string("ok") : "FAIL " + rawErr) + " ; ev " + evTrace;
 		if (failing) out += " ; af " + (afErr.empty() ? std::string("ok") : "FAIL " + afErr);
 		if (failing) fprintf(stderr, "af %zu\n", afCount);
+		fprintf(stderr, "inj %zu\n", injected);
 		if (!problem.empty()) out = "HARNESS " + problem;
 		return out;
 	}
 };
 
-template<size_t L, bool keep, typename MM = MemManagerDefault, bool failing = false>
+static bool g_ctorFirst = false;   // set by parseOps: the first op is written A/G/H = through the constructor
+template<size_t L, bool keep, typename MM = MemManagerDefault, bool failing = false, typename TStruct = DataStructDefault<>>
 static std::string runCase(const std::vector<std::vector<ColSpec>>& ops, const std::vector<ColSpec>& extras, const std::vector<ull>& universe)
 {
-	Runner<L, keep, MM, failing> r; return r.run(ops, extras, universe);
+	Runner<L, keep, MM, failing, TStruct> r; r.ctorFirst = g_ctorFirst; return r.run(ops, extras, universe);
 }
 
 // parses the ops of a case line (after "<L> <keep>"); type index + 100 = the column is added as mutable
 static bool parseOps(std::istringstream& is, std::vector<std::vector<ColSpec>>& ops, std::vector<ColSpec>& extras, std::vector<ull>& universe)
 {
-	std::vector<ull> probes; std::string tok; bool bad = false;
+	std::vector<ull> probes; std::string tok; bool bad = false; g_ctorFirst = false;
 	auto readCol = [&] (ColSpec& c) { is >> c.t >> c.size >> c.align >> c.code; if (c.t >= 100) { c.t -= 100; c.mut = true; } };
 	while (is >> tok)
 	{
 		if (tok == ";") continue;
+		if (ops.empty() && (tok == "A" || tok == "G" || tok == "H")) { g_ctorFirst = true; tok[0] = char(tok[0] - 'A' + 'a'); }
 		if (tok == "a")
 		{
 			ColSpec c; readCol(c);
